@@ -7,7 +7,11 @@ witness(line, model_out, impl_out) compares the implementation's answer with a s
 (section 9.2 / 9.3 / 9.5, no white space) written down independently in Python below. Tags of the listed
 deviations:
   ws-tolerated         surrounding isspace() characters accepted (stated as part of the accepted language)
-  nul-truncation       integer value with an embedded NUL accepted as the text before the NUL (length-taking API only)
+  nul-truncation       integer value with an embedded NUL accepted as the text before the NUL. Outside the property: a
+                       lexical value is a string of YANG characters (RFC 7950 6.1.3 excludes #x00), no parser can deliver
+                       a NUL, and the C API takes C strings (value_len selects a prefix of one). The correspondence (T2)
+                       still runs these inputs - the model truncates at the NUL as strndup() does - but the RFC oracle
+                       does not judge them (it did in round 1: a false alarm of the oracle, see DESIGN.md).
 A disagreement with the RFC that is none of these gets the tag None.
 
 The three decimal64 deviations of round 1 (sign only accepted as 0.0, "-.5"/"+.5" accepted, value ending in '.'
@@ -589,7 +593,7 @@ class RfcStoreOracle:
         if not re.fullmatch(r"E|-|([0-9a-f]{2})+", tok[0]):
             return None, "implementation failed on %r (%s): %s" % (unhex(f[2]), f[1], out)
         r = classify(f[1], unhex(f[2]), tok[0])
-        if r and r[0] != "ws-tolerated":
+        if r and r[0] not in ("ws-tolerated", "nul-truncation"):
             return r
         return None
 
